@@ -64,6 +64,12 @@ HEX = "0123456789abcdef"
 
 
 def notation(kind, i, j, upper):
+    i, j, upper = concrete((i, j, upper))
+    with untraced():
+        return _notation(kind, i, j, upper)
+
+
+def _notation(kind, i, j, upper):
     if kind == "hex":
         s, val = "0x" + HEX[i] + HEX[j], 16 * i + j
     elif kind == "oct":
